@@ -165,6 +165,8 @@ class Printer(PrinterBase):
             s = f"std::numeric_limits<{typ}>::infinity()"
         elif s == "-inf":
             s = f"(-std::numeric_limits<{typ}>::infinity())"
+        elif s == "nan":
+            s = f"std::numeric_limits<{typ}>::quiet_NaN()"
         elif typ in {"float", "std::complex<float>", "std::complex<double>"}:
             # an unsuffixed literal is a double: it would promote float
             # arithmetic to double and does not mix with std::complex
